@@ -222,6 +222,7 @@ struct MeshAudit {
     long tris = 0, verts = 0, degenerate = 0, bad_index = 0, unreferenced = 0, unbalanced_edges = 0, nonmanifold_edges = 0;
     long outside_region = 0; double max_field = 0; long wind_pts = 0, wind_bad = 0; std::string first_bad;
 };
+static const double MESH_ORIENT = 1.0;    // the sign every libfive mesher produces (normals from inside to outside)
 static double solid_angle_sum(const Mesh& m, const Eigen::Vector3d& p) {
     double total = 0;
     for (auto& t : m.branes) {
@@ -266,8 +267,10 @@ static MeshAudit audit_mesh(const Mesh& m, Evaluator& ev, const Region<3>& rg, d
         if (!(std::fabs(f) > 1.5 * minfeat)) continue;
         ++a.wind_pts;
         double w = solid_angle_sum(m, p);
-        double want = f < 0 ? 1.0 : 0.0;
-        if (std::fabs(std::fabs(w) - want) > 0.2) {
+        // C04_dc_orientation: triangles are wound so that normals point from the inside to the outside; with this
+        // solid-angle formula an outward-oriented closed surface gives winding ORIENT at interior points
+        double want = f < 0 ? MESH_ORIENT : 0.0;
+        if (std::fabs(w - want) > 0.2) {
             if (!a.wind_bad) { std::ostringstream o; o << "p=(" << p.x() << "," << p.y() << "," << p.z() << ") f=" << f << " winding=" << w; a.first_bad = o.str(); }
             ++a.wind_bad;
         }
@@ -1388,7 +1391,9 @@ int main(int argc, char** argv) {
                         ++wpts;
                         bool bad = std::fabs(w - wi) > 0.2;
                         if (f > 0) { if (wi != 0) bad = true; }
-                        else { if (wi != 1 && wi != -1) bad = true; else if (sign == 0) sign = (int)wi; else if (sign != wi) bad = true; }
+                        // C10_contours_wind_consistently: the solid is on the LEFT of every emitted segment, so filled
+                        // regions are wound counter-clockwise (x to the right, y upwards): winding number exactly +1
+                        else { if (wi != 1) bad = true; (void)sign; }
                         if (bad) { if (!wbad) { std::ostringstream o; o << "p=(" << px << "," << py << ") f=" << f << " winding=" << w; info = o.str(); } ++wbad; }
                     }
                     std::ostringstream o;
